@@ -204,12 +204,20 @@ def kindsLt : List Seg → List Seg → Bool
   | _ :: _, [] => false
   | a :: as, b :: bs => segKind a < segKind b || (segKind a = segKind b && kindsLt as bs)
 
-def pickBest : List Route → Option Route
+def endsWithAny : List Seg → Bool
+  | [] => false
+  | [s] => s = .any
+  | _ :: r => endsWithAny r
+
+/-- the depth-first search over the path-matching candidates in priority order. A node (= pattern) that has the
+    request method ends the search with its handler. A node without the method is skipped (echo remembers it for the
+    405) — EXCEPT an any-node (`*`): echo does not backtrack out of a matched any-node, the search ends there (405). -/
+def walkCands (all : List Route) (m : String) : List Route → Option Route
   | [] => none
-  | r :: rs =>
-    match pickBest rs with
-    | none => some r
-    | some b => if kindsLt b.pat r.pat then some b else some r
+  | r :: rest =>
+    match all.find? (fun q => q.pat = r.pat && q.method = m) with
+    | some q => some q
+    | none => if endsWithAny r.pat then none else walkCands all m rest
 
 def patExtends : List Seg → List Seg → Bool   -- `q` strictly extends `p` (same kinds/literals on the common part)
   | [], _ :: _ => true
@@ -228,8 +236,8 @@ inductive Routed where
   deriving Repr, DecidableEq
 
 def findRoute (rs : List Route) (method : String) (p : Str) : Routed :=
-  let cands := rs.filter (pathMatches rs p)
-  match pickBest (cands.filter (fun r => r.method = method)) with
+  let cands := sortBy (fun a b => kindsLt a.pat b.pat) (rs.filter (pathMatches rs p))
+  match walkCands cands method cands with
   | some r => .handler r
   | none => if cands.isEmpty then .notFound else .methodNotAllowed
 
